@@ -188,6 +188,10 @@ def mk_exc(value, shape, casing, where, status=429):
         e.headers = h
     else:
         e.response = RESP_KINDS[(len(casing) + len(shape) + len(str(type(value)))) % len(RESP_KINDS)](h)
+        if (len(casing) + len(shape)) % 3 == 0:
+            # SDK errors that copy the headers they were given (`self.headers = dict(headers or {})`) and were given none: an EMPTY table of
+            # their own next to the response that carries the hint
+            e.headers = {} if len(shape) % 2 else ()
     # can the lookup be expected to find the value?
     if shape in ("dict", "dict+noise", "dict+date", "pairs+date", "mapsub", "getitems", "pairs", "tuplepairs", "itemsview", "iterable", "setpairs"):
         found = "yes"
